@@ -105,6 +105,9 @@ pub fn run_model(cfg: &ModelCfg, context: Value, stop_at: Option<u64>, body: imp
     let default_hook = std::panic::take_hook();
     std::panic::set_hook(Box::new(move |info| {
         if EXPECT_PANIC.load(Ordering::SeqCst) > 0 {
+            if std::env::var("VH_PANIC_DEBUG").is_ok() {
+                eprintln!("[expected-panic window] {info}");
+            }
             return; // a documented panic, caught by the harness
         }
         let msg = if let Some(s) = info.payload().downcast_ref::<&str>() {
